@@ -49,6 +49,43 @@ func c15Gen(g *Gen) {
 	n := g.N(120, 1500)
 	ids := []string{"anon", tkID(true, "bearer", "alice"), tkID(true, "jwt", "bob")}
 	methods := []string{"exch", "dyne", "dyne", "dynn", "exb", "prod", "dynp"}
+	for i := 0; i < g.N(3, 12); i++ {
+		// sub-second lifetimes: fractional TTL, whole-second CreatedAt, requests placed at a chosen phase of the
+		// wall-clock second: ages TTL-250 ms (accepted) and TTL+250 ms (refused), for the cursor and for the call token
+		ttl := Pick(r, []int{1500, 2500, 3500})
+		k := ttl / 1000 // token age in whole seconds at the request
+		key := tkKeyOfLen(r, 32)
+		id, m := Pick(r, ids), Pick(r, []string{"exch", "dyne", "prod"})
+		kind := map[bool]string{true: "P", false: "E"}[m == "prod"]
+		lines := []string{
+			tkInstLine("ref", key, ttl, 0, false, "wr", false, true),
+			tkInstLine("a", key, ttl, 4096, false, "wa", false, true),
+		}
+		cnt := 0
+		probe := func(curAge, callAge, phase int) {
+			cs, ks := fmt.Sprintf("mc%d", cnt), fmt.Sprintf("mk%d", cnt)
+			cnt++
+			lines = append(lines, "phase 40",
+				fmt.Sprintf("mint cursor %s a %s age=%d callid=new method=%s skind=%s count=1 limit=50", cs, id, curAge, m, kind),
+				fmt.Sprintf("mint call %s a %s age=%d callid=@%s schema=1 streamid=%s insch=%s", ks, id, callAge, cs, XS(fmt.Sprintf("%032x", r.U64())), tkMethodIn(m)),
+				fmt.Sprintf("phase %d", phase),
+				fmt.Sprintf("cont ref %s %s cur=$%s call=$%s cancel=0 sess=- out=- tight=1", id, m, cs, ks),
+				fmt.Sprintf("cont a %s %s cur=$%s call=$%s cancel=0 sess=- out=- pair=1 tight=1", id, m, cs, ks),
+				fmt.Sprintf("cont a %s %s cur=$%s call=$%s cancel=0 sess=- out=- pair=1 tight=1", id, m, cs, ks)) // second time: through the entry the first left
+		}
+		switch i % 3 {
+		case 0:
+			probe(k, 0, 750) // cursor TTL+250 ms
+			probe(0, k, 780) // call token TTL+280 ms
+		case 1:
+			probe(k, 0, 250) // cursor TTL-250 ms
+			probe(0, k, 700)
+		default:
+			probe(k, k, 760)
+			probe(k, 0, 230)
+		}
+		g.Case(lines...)
+	}
 	for i := 0; i < n; i++ {
 		T := Pick(r, []int{20, 20, 100, 3600})
 		key := tkKeyOfLen(r, Pick(r, []int{16, 32, 32, 64}))
